@@ -285,6 +285,10 @@ class Repo:
             sg = normalise_signatures(self)
             if sg:
                 self.signatures = sg
+            from .canon import positionalise_keywords
+            pk = positionalise_keywords(self)
+            if pk:
+                self.positionalised = pk
         self.publish_method_names()
 
     # -- lookup -----------------------------------------------------------------------------
